@@ -171,7 +171,22 @@ func H_Codec_Differential() {
 	n := []int{0, 7, 42}[vx.Choose("d.n", 3)] // concrete: the encoders format numbers through float/int printing
 	flag := vx.Bool("d.flag")
 	var val interface{}
-	switch vx.Choose("value", 7) {
+	switch vx.Choose("value", 9) {
+	case 7, 8:
+		// byte slices around the sizes at which the encoder switches strategy (base64 scratch buffer of 64 bytes)
+		n := []int{0, 1, 47, 48, 49, 63, 64, 65, 100}[vx.Choose("d.len", 9)]
+		b := make([]byte, n)
+		for k := range b {
+			b[k] = byte(k * 7)
+		}
+		if n > 0 {
+			b[0] = vx.Byte("d.b0")
+		}
+		if vx.Choose("d.wrap", 2) == 1 {
+			val = map[string]interface{}{"bin": b}
+		} else {
+			val = b
+		}
 	case 0:
 		val = map[string]interface{}{"b": s1, "a": []interface{}{nil, true, s2, float64(n)}, "c": map[string]interface{}{}}
 	case 1:
